@@ -91,9 +91,14 @@ def plan(ctx):
     for d in _e1.DRAFTS:
         units += [(d, "deep", i, 4) for i in range(4)]
         sizes["deep_d%d" % d] = len(get_deep(d))
+    for ci in range(len(THREAD_CASES)):
+        units.append(("threads", ci, "line", 2 if ctx.thorough else 1))
+        units.append(("threads", ci, "call", 2 if (ctx.thorough and ci != 1) else 1))
     return {
         "units": units,
-        "rule": ("error collections = list(iter_errors(x)) for every check_schema-accepted schema of G(draft) "
+        "rule": ("THREADS: 2-3 real threads ask one freshly built tree for len / total_errors / members / per-node "
+                 "totals under the baton scheduler, every schedule with <= 1 (thorough 2) preemptions at line and "
+                 "call granularity, 3 trees.  error collections = list(iter_errors(x)) for every check_schema-accepted schema of G(draft) "
                  "(singles, all ordered pairs, sibling groups%s, and the 'deep' schemas: a small constraint "
                  "applied at every level through three levels of items / additionalProperties, combined with "
                  "required / draft-3 required / propertyNames at every level) x U_d (instances with pairwise "
@@ -283,6 +288,29 @@ def check_history(errors, trie):
                     if kind != "absent":
                         problems.append(("history|index-%s|%s" % (kind, type(ex).__name__),
                                          {"at": list(pre), "lookups": [list(o) for o in seq]}))
+            # what a lookup returned stays what it was: the (empty) tree for an error-free element still answers
+            # for that element after other lookups happened -- elements that exist below it give empty trees
+            if ok and seq[0][0] == "error-free":
+                el0 = seq[0][1]
+                try:
+                    first = ErrorTree(errors)
+                    n0 = first
+                    for el in pre:
+                        n0 = n0[el]
+                    held = n0[el0]
+                    for kind, el in seq[1:]:
+                        try:
+                            n0[el]
+                        except Exception:
+                            pass
+                    for sub in elements(step_into(x, el0))[:3]:
+                        deeper = held[sub]
+                        if deeper.total_errors != 0 or deeper.errors or list(deeper):
+                            problems.append(("history|below-error-free|not-an-empty-tree",
+                                             {"at": list(pre) + [el0], "element": sub, "lookups": [list(o) for o in seq]}))
+                except Exception as ex:
+                    problems.append(("history|below-error-free|%s" % type(ex).__name__,
+                                     {"at": list(pre) + [el0], "lookups": [list(o) for o in seq]}))
             it = list(iter(node))
             what = "+".join(k for k, _ in seq)
             if set(it) != want or len(it) != len(set(it)):
@@ -299,6 +327,70 @@ def check_history(errors, trie):
             if problems:
                 return problems
     return problems
+
+
+# ---- two threads asking one tree for its totals / members at the same time ------------------------------
+THREAD_CASES = [
+    (7, {"properties": {"a": {"type": "string", "minLength": 3}, "b": {"items": {"type": "integer"}}}, "required": ["c"]},
+     {"a": 1, "b": [1, "x", "y"]}),
+    (4, {"items": {"properties": {"k": {"enum": [0]}}}, "minItems": 9}, [{"k": 1}, {"k": 2}, {"k": 0}]),
+    (3, {"properties": {"a": {"properties": {"b": {"type": "string", "required": True}}}}}, {"a": {"b": 1, "c": 2}}),
+]
+
+
+def thread_bodies(ci):
+    d, S, X = THREAD_CASES[ci]
+    errors = list(_e1.CLS[d](S).iter_errors(X))
+    tree = ErrorTree(errors)
+    trie = Trie(errors, X)
+
+    def totals():
+        return (len(tree), tree.total_errors, sorted(map(repr, tree)))
+
+    def walk():
+        out = []
+        for pre in trie.prefixes:
+            node = tree
+            for el in pre:
+                node = node[el]
+            out.append((list(pre), node.total_errors, len(node)))
+        return out
+    return [totals, walk, totals][:2 + (ci % 2)], trie
+
+
+def thread_check(ci):
+    def check(results):
+        bodies, trie = thread_bodies(ci)        # expected values from the trie
+        want_root = trie.below[()]
+        for r in results:
+            if isinstance(r, tuple) and r and r[0] == "EXC":
+                return {"raised": list(r)}
+            if isinstance(r, tuple):
+                if r[0] != want_root or r[1] != want_root or r[2] != sorted(map(repr, trie.children[()])):
+                    return {"totals": list(r), "expected": want_root}
+            else:
+                for pre, te, ln in r:
+                    if te != trie.below[tuple(pre)] or ln != trie.below[tuple(pre)]:
+                        return {"at": pre, "total_errors": te, "len": ln, "expected": trie.below[tuple(pre)]}
+        return None
+    return check
+
+
+def run_threads(unit, ctx):
+    import os
+    import jsonschema
+    from mc.explore import threads
+    _, ci, gran, bound = unit
+    pkg = os.path.dirname(os.path.abspath(jsonschema.__file__))
+    r = threads.explore(lambda: thread_bodies(ci)[0], thread_check(ci), pkg, gran, bound)
+    viol = []
+    for choices, bad in r["problems"]:
+        viol.append({"signature": "C17|threads|%s|%s" % (gran, sorted(bad)[0]), "size": len(choices),
+                     "case": {"threads": True, "case_index": ci, "granularity": gran, "choices": choices}, "detail": bad})
+    outcomes = {"threads-preemptions=%d" % k: v for k, v in r["by_preemptions"].items()}
+    return {"evaluations": r["schedules"], "nontrivial": sum(v for k, v in r["by_preemptions"].items() if k > 0),
+            "violations": viol, "samples": [], "outcomes": outcomes,
+            "counters": {"thread_schedules": r["schedules"], "thread_scheduling_points": r["steps"]}}
 
 
 def brief(e):
@@ -407,6 +499,8 @@ def pick(errors, order):
 
 # ---------------------------------------------------------------- harness protocol
 def run_unit(unit, ctx):
+    if unit[0] == "threads":
+        return run_threads(unit, ctx)
     d = unit[0]
     U = universe(ctx.tier, unit[1])
     ev = nt = nschemas = ncoll = capped = 0
@@ -491,6 +585,15 @@ def finish(merged, plan, ctx):
 
 
 def replay(case, ctx):
+    if case.get("threads"):
+        import os
+        import jsonschema
+        from mc.explore import threads
+        pkg = os.path.dirname(os.path.abspath(jsonschema.__file__))
+        sc = threads.Sched(thread_bodies(case["case_index"])[0], case["choices"], pkg, case["granularity"])
+        results, points = sc.run()
+        bad = thread_check(case["case_index"])(results)
+        return {"reproduced": bad is not None, "problem": bad}
     d, S, X = case["draft"], case["schema"], case["instance"]
     errors = list(_e1.CLS[d](S).iter_errors(X))
     seq = pick(errors, case["order"])
